@@ -124,6 +124,10 @@ pub enum GOp {
     /// CurveVar::precomputed_base_scalar_mul_le on register a: the receiver becomes sum of bit_i * (2^i * base), the bases being
     /// native constants (fixed-base multiplication); nbits bits of k, witness or constant
     FixedBaseMul { dst: u8, a: u8, base: Recipe, k: Num, nbits: u16, bits_const: bool },
+    /// witness allocation of *offered coordinates* (through the guarded unchecked constructor): `shift`
+    /// adds the 4-torsion point (i, 0) to the recipe's point, which leaves the curve's group of valid
+    /// elements; natively such a value does not exist, so the system must be unsatisfiable
+    AllocRaw { dst: u8, src: Recipe, shift: bool, via_affine: bool },
 }
 
 impl GOp {
@@ -827,6 +831,35 @@ impl Machine {
                 let is_const = acc.cs().is_none();
                 self.ev[*dst as usize % NE] = Some(EReg { var: std::rc::Rc::new(acc), native: nat, is_const, poisoned: false });
             }
+            GOp::AllocRaw { dst, src, shift, via_affine } => {
+                let m = src.model();
+                let c = &*crate::refmodel::CURVE;
+                let p = if *shift {
+                    let i = Q.sqrt(&Q.neg(&N::from(1u32))).expect("-1 is a square");
+                    c.add(&m.pt, &crate::refmodel::Pt { x: i, y: N::from(0u32) })
+                } else {
+                    m.pt.clone()
+                };
+                let raw = AE::verif_from_affine_unchecked(fq_of(&p.x), fq_of(&p.y));
+                let var = if *via_affine {
+                    <ElementVar as AllocVar<AA, Fq>>::new_variable(cs.clone(), || Ok(raw.into_affine()), Mode::Witness.ark())
+                } else {
+                    <ElementVar as AllocVar<AE, Fq>>::new_variable(cs.clone(), || Ok(raw), Mode::Witness.ark())
+                };
+                let var = match catch_unwind(AssertUnwindSafe(|| var)) {
+                    Ok(v) => v.map_err(|e| synth(e, &name))?,
+                    Err(_) => return Err(synth(SynthesisError::AssignmentMissing, &name)),
+                };
+                if *shift {
+                    native_fails = Some("the offered coordinates are a curve point outside the group of valid elements".into());
+                    self.ev[*dst as usize % NE] = Some(EReg { var: std::rc::Rc::new(var), native: AE::IDENTITY, is_const: false, poisoned: true });
+                } else {
+                    let native = native_of(src);
+                    self.check_elem(&name, &var, &native, ctx)?;
+                    self.inputs.push(InKind::Elem(var.clone(), native));
+                    self.ev[*dst as usize % NE] = Some(EReg { var: std::rc::Rc::new(var), native, is_const: false, poisoned: false });
+                }
+            }
             GOp::ReadValue { a } => {
                 // on the register's own variable (not a clone), so that lazy state changes persist
                 let idx = {
@@ -1091,6 +1124,7 @@ pub fn gop() -> BoxedStrategy<GOp> {
             let k = if top && nbits > 0 { Num(&k.0 | (N::from(1u32) << (nbits as u64 - 1))) } else { k };
             GOp::FixedBaseMul { dst, a, base, k, nbits, bits_const }
         }),
+        1 => (e(), recipe::recipe_small(), any::<bool>(), any::<bool>()).prop_map(|(dst, src, shift, via_affine)| GOp::AllocRaw { dst, src, shift, via_affine }),
         1 => (e(), 0u8..4, any::<u8>(), proptest::collection::vec(e(), 1..=8), any::<bool>()).prop_map(|(dst, bits, index, regs, bits_const)| GOp::SelectVector { dst, bits, index, regs, bits_const }),
     ]
     .boxed()
